@@ -372,9 +372,12 @@ pub enum Via {
     CloneFromUsed,
     /// as above, but the overwritten instance was built with LARGER periods and another multiplier
     CloneFromBigger,
+    /// several in a row: clone, serde round trip of the clone, that copied with clone_from into a used
+    /// instance, and a clone of the result
+    Chain,
 }
 
-pub const VIAS: [Via; 4] = [Via::Serde, Via::Clone, Via::CloneFromUsed, Via::CloneFromBigger];
+pub const VIAS: [Via; 5] = [Via::Serde, Via::Clone, Via::CloneFromUsed, Via::CloneFromBigger, Via::Chain];
 
 impl Via {
     pub fn text(self) -> &'static str {
@@ -384,6 +387,7 @@ impl Via {
             Via::Clone => "replaced by its clone",
             Via::CloneFromUsed => "copied with clone_from into an instance of the same parameters that had already consumed another stream",
             Via::CloneFromBigger => "copied with clone_from into an instance built with larger periods (and another multiplier) that had already consumed another stream",
+            Via::Chain => "cloned, the clone serialized and restored, the restored copy copied with clone_from into a used instance, and that cloned again",
         }
     }
     pub fn tag(self) -> &'static str {
@@ -393,6 +397,7 @@ impl Via {
             Via::Clone => "clone",
             Via::CloneFromUsed => "clone_from(used)",
             Via::CloneFromBigger => "clone_from(bigger)",
+            Via::Chain => "clone+serde+clone_from+clone",
         }
     }
 }
@@ -406,6 +411,12 @@ pub fn apply_via(cfg: &Cfg, s: Box<dyn Subject>, via: Via) -> Box<dyn Subject> {
             s.de(&bytes).expect("harness: deserialize")
         }
         Via::Clone => s.dup(),
+        Via::Chain => {
+            let c = apply_via(cfg, s, Via::Clone);
+            let r = apply_via(cfg, c, Via::Serde);
+            let t = apply_via(cfg, r, Via::CloneFromUsed);
+            t.dup()
+        }
         Via::CloneFromUsed | Via::CloneFromBigger => {
             let mut tcfg = *cfg;
             if via == Via::CloneFromBigger {
